@@ -272,13 +272,23 @@ class Ctx:
             if v['role'] == role and not role_from_output:   # one report per role and run
                 v['count'] = v.get('count', 1) + 1
                 return v
-        rp = self.replay_native(role, test_body, uses=uses, profiles=profiles, inject_into=inject_into)
-        if hang_is_violation and any(v.get('timeout') for v in rp['profiles'].values()):
-            rp['reproduced'] = True
-            rp['hang'] = True
-        if panic_is_violation and any(('panicked at' in v.get('tail', '') and 'VERIF-REPLAY-OK' not in v.get('tail', '')) for v in rp['profiles'].values()):
-            rp['reproduced'] = True
-            rp['panicked'] = True
+        def classify(rp_):
+            if hang_is_violation and any(v.get('timeout') for v in rp_['profiles'].values()):
+                rp_['reproduced'] = True
+                rp_['hang'] = True
+            if panic_is_violation and any(('panicked at' in v.get('tail', '') and 'VERIF-REPLAY-OK' not in v.get('tail', '')) for v in rp_['profiles'].values()):
+                rp_['reproduced'] = True
+                rp_['panicked'] = True
+            return rp_
+        rp = classify(self.replay_native(role, test_body, uses=uses, profiles=profiles, inject_into=inject_into))
+        if not rp['reproduced'] and 'release' not in profiles:
+            # the MIR the solver decided on is compiled without debug assertions: a counterexample that exists only there (a side effect
+            # inside debug_assert!, wrapping arithmetic) shows natively in the release profile only
+            rp2 = classify(self.replay_native(role, test_body, uses=uses, profiles=('release',), inject_into=inject_into))
+            rp['profiles'].update(rp2['profiles'])
+            for k_ in ('reproduced', 'hang', 'panicked'):
+                if rp2.get(k_):
+                    rp[k_] = rp2[k_]
         if role_from_output and rp['reproduced']:
             for prof in rp['profiles'].values():
                 mm = re.search(r'VERIF-REPLAY-VIOLATION (\S+)', prof.get('tail', ''))
@@ -309,23 +319,35 @@ class Ctx:
             if v['role'] == role:
                 v['count'] = v.get('count', 1) + 1
                 return v
-        rp = self.replay_native(role, test_body, expect_marker='VERIF-OBS', profiles=profiles, inject_into=inject_into)
-        native = None
-        for prof in rp['profiles'].values():
-            mm = re.search(r'VERIF-OBS (.*)', prof.get('tail', ''))
-            if mm:
-                native = mm.group(1).strip()
-                break
-        reproduced = native is not None and native == expected_obs.strip()
-        if not reproduced and native is not None and native_oracle is not None:
-            # the native run may differ from the engine's prediction in ways the model does not fix (iteration order of a hash map):
-            # the counterexample is still confirmed if the native observation itself breaks the property-level oracle
-            try:
-                if native_oracle(native) is False:
-                    reproduced = True
-                    rp['reproduced_by'] = 'property-level oracle evaluated on the native observation (differs from the engine prediction, e.g. hash-map iteration order)'
-            except Exception as e:   # noqa
-                rp['oracle_error'] = str(e)
+        def run_once(profs):
+            rp_ = self.replay_native(role, test_body, expect_marker='VERIF-OBS', profiles=profs, inject_into=inject_into)
+            native_ = None
+            for prof in rp_['profiles'].values():
+                mm = re.search(r'VERIF-OBS (.*)', prof.get('tail', ''))
+                if mm:
+                    native_ = mm.group(1).strip()
+                    break
+            ok_ = native_ is not None and native_ == expected_obs.strip()
+            if not ok_ and native_ is not None and native_oracle is not None:
+                # the native run may differ from the engine's prediction in ways the model does not fix (iteration order of a hash map):
+                # the counterexample is still confirmed if the native observation itself breaks the property-level oracle
+                try:
+                    if native_oracle(native_) is False:
+                        ok_ = True
+                        rp_['reproduced_by'] = 'property-level oracle evaluated on the native observation (differs from the engine prediction, e.g. hash-map iteration order)'
+                except Exception as e:   # noqa
+                    rp_['oracle_error'] = str(e)
+            return rp_, native_, ok_
+        rp, native, reproduced = run_once(profiles)
+        if not reproduced and 'release' not in profiles:
+            # the solver decides on MIR compiled without debug assertions: try the profile that matches it
+            rp2, native2, ok2 = run_once(('release',))
+            rp['profiles'].update(rp2['profiles'])
+            if ok2:
+                native, reproduced = native2, True
+                rp['reproduced_in'] = 'release profile only'
+                if 'reproduced_by' in rp2:
+                    rp['reproduced_by'] = rp2['reproduced_by']
         rp['native_observation'], rp['engine_observation'], rp['reproduced'] = native, expected_obs, reproduced
         rdir = os.environ.get('VERIF_REPLAY_DIR', os.path.join(VERIF, 'replays'))
         os.makedirs(rdir, exist_ok=True)
